@@ -41,7 +41,7 @@ noncomputable def powSem (vb : Option ℝ) (e : Expr) (ve : Option ℝ) : Option
       | some x => if 0 < b then some (Real.rpow b x) else none
       | none => none
 
-/-- the one-argument functions with a total real meaning (log: positive argument only) -/
+/-- the functions with a real meaning (log: positive argument only; tan, cot, csc, sec: away from their poles) -/
 noncomputable def appSem (h : String) (args : Option (List ℝ)) : Option ℝ :=
   match args with
   | some [x] =>
@@ -53,6 +53,10 @@ noncomputable def appSem (h : String) (args : Option (List ℝ)) : Option ℝ :=
     else if h = "Sin" then some (Real.sin x)
     else if h = "Cos" then some (Real.cos x)
     else if h = "Log" then (if 0 < x then some (Real.log x) else none)
+    else if h = "Tan" then (if Real.cos x = 0 then none else some (Real.sin x / Real.cos x))
+    else if h = "Cot" then (if Real.sin x = 0 then none else some (Real.cos x / Real.sin x))
+    else if h = "Csc" then (if Real.sin x = 0 then none else some (Real.sin x)⁻¹)
+    else if h = "Sec" then (if Real.cos x = 0 then none else some (Real.cos x)⁻¹)
     else none
   | some (x :: y :: rest) =>
     if h = "Max" then some ((y :: rest).foldl max x)
